@@ -11,6 +11,10 @@ static void init(void)
     __CPROVER_assume(g < PW_CAP - 2 && h < PW_CAP - 2); /* larger indices are never valid */
     G = g;
     H = h;
+    size_t t;
+    T = t;
+    ref x;
+    X = x;
 }
 
 /* one harness per level of the added issue (a finite case split of the same contract) */
@@ -66,3 +70,19 @@ H_GET(issue)
 H_GET(error)
 H_GET(warning)
 H_GET(message)
+
+/* lemma (no code): the invariant does not depend on the level of an object that is not listed */
+void h_level_frame(void)
+{
+    init();
+    ref in_self = 1;
+    ISSUES(in_self).d = PW_FRESH(ref);
+    ERRORS(in_self).d = PW_FRESH(size_t);
+    WARNINGS(in_self).d = PW_FRESH(size_t);
+    MESSAGES(in_self).d = PW_FRESH(size_t);
+    __CPROVER_assume(WF_LOGGER(in_self) && LASTS(in_self) && NOT_LISTED(in_self, X) && X < HEAP_N);
+    int lvl;
+    LEVEL_OF(X) = lvl;
+    __CPROVER_assert(WF_LOGGER(in_self) && LASTS(in_self), "changing the level of an issue that is not in the list keeps the logger coherent");
+    CANARY_HERE();
+}
